@@ -38,6 +38,8 @@ THEOREMS = [
     "Pyribs.C10.basic_count",
     "Pyribs.C10.tell_acts",
     "Pyribs.C10.restart_action",
+    "Pyribs.C10.restart_recentres",
+    "Pyribs.C10.restart_block_last",
     "Pyribs.C10.restart_action_es",
     "Pyribs.C10.restart_action_gae",
     "Pyribs.C10.no_restart_no_action",
@@ -56,7 +58,12 @@ RULE = ("histories of ask/tell (tell_dqd first for the arborescence emitter) on 
         "optimizer, spy ranker and spy gradient optimizer; strata: random histories per emitter, a sweep over "
         "{emitter} x {mu, filter} x {basic, no_improvement, 1..7} x batch 1..8, feedback blocks (all / some / "
         "none inserted, statuses 1 and 2 mixed), scripted stop signals (also coinciding with the rule), archive "
-        "churn between tells (elites replaced / archive cleared and refilled), and rejected calls; a case is "
+        "churn between tells (elites replaced / archive cleared and refilled), integer rules given as Python ints "
+        "and as NumPy integers (int8, uint8, int16, int32, int64, uint64) with histories running past the range "
+        "of the narrow types (>= 130 tells for int8, >= 260 for uint8, >= 32770 for int16 in the thorough tier), "
+        "the arborescence emitter with a spy gradient optimizer that really moves and with the stock "
+        "gradient_ascent / adam optimizers (solution point read through ask_dqd() after every restart), and "
+        "rejected calls; a case is "
         "non-trivial when it contains at least one tell that must restart and one that must not (rejections "
         "stratum: at least one rejected call), counted once per distinct op list")
 PARTIAL = []
@@ -76,6 +83,11 @@ LEVEL_TEXT = ("theorems unbounded over configurations, rankers, stop tests, feed
               "(thorough) tells")
 
 RULES = ["basic", "no_improvement", 1, 2, 3, 4, 5, 6, 7]
+# an integer rule may be given as any numbers.Integral: the same N as a fixed-width NumPy integer
+NP_INTS = ["int8", "uint8", "int16", "int32", "int64", "uint64"]
+# number of tells after which `itrs` no longer fits the type (only the small ones are reachable)
+NP_WIDTH = {"int8": 128, "uint8": 256, "int16": 32768}
+GOPTS = ["spy", "spy", "gradient_ascent", "adam"]
 SELS = ["mu", "filter"]
 X0 = -1.0
 MEASURE_DIM = 2
@@ -156,6 +168,7 @@ def spy_classes():
         # pylint: disable = super-init-not-called
         def __init__(self, theta0, lr, *, log):
             self.log = log
+            self.lr = lr
             self._theta = np.array(theta0, copy=True)
 
         @property
@@ -167,8 +180,10 @@ def spy_classes():
             self._theta = np.array(theta0, copy=True)
 
         def step(self, gradient):
-            # movement of the solution point belongs to C19; only recorded
+            # plain gradient ascent: the solution point really moves, so that an update applied after a
+            # re-centring is visible in ask_dqd() (how far it moves is property C19, not compared here)
             self.log.append(("go.step", np.array(gradient, copy=True)))
+            self._theta = self._theta + self.lr * np.asarray(gradient, dtype=self._theta.dtype)
 
     _CLASSES.update(es=SpyES, rk=SpyRanker, go=SpyGradOpt)
     return _CLASSES
@@ -260,9 +275,12 @@ RESTART_ACTS = ("greset", "oreset", "rreset")
 
 
 def canon_acts(acts):
-    """hand-off part in call order; restart block as a sorted multiset (the order
-    of the resets among themselves is not constrained by the property)"""
-    head = [a for a in acts if a[0] not in RESTART_ACTS]
+    """hand-off part in call order (without the gradient step of the arborescence
+    emitter: whether one is taken is property C19); restart block as a sorted
+    multiset (the order of the resets among themselves is not constrained by the
+    property); `late` = everything that is not a reset but happens after one
+    (this includes a gradient step taken after the re-centring)"""
+    head = [a for a in acts if a[0] not in RESTART_ACTS and a[0] != "gstep"]
     tail = sorted(a for a in acts if a[0] in RESTART_ACTS)
     first_reset = next((i for i, a in enumerate(acts) if a[0] in RESTART_ACTS), len(acts))
     # anything of the hand-off that happens after a reset is kept visible
@@ -292,8 +310,9 @@ def decisions(case):
     out, k = [], 0
     for op in case["ops"]:
         if op["op"] == "iter":
-            k += 1
-            out.append(bool(op["stop"]) or rule_fires(case["rule"], k, op["st"]))
+            for _ in range(int(op.get("rep", 1))):
+                k += 1
+                out.append(bool(op["stop"]) or rule_fires(case["rule"], k, op["st"]))
     return out
 
 
@@ -364,6 +383,8 @@ def gen_history(rng, kind, sel, rule, bs, n_iters, p_stop=0.15, modes=("random",
     return {
         "kind": kind, "sel": sel, "rule": rule, "batch": bs, "dim": rng.randint(1, 4),
         "f32": rng.random() < 0.25, "aseed": rng.randrange(1000), "normalize": rng.random() < 0.5,
+        "rule_np": rng.choice(NP_INTS) if isinstance(rule, int) and rng.random() < 0.35 else None,
+        "gopt": rng.choice(GOPTS) if kind == "gae" else "spy",
         "ops": ops,
     }
 
@@ -403,6 +424,38 @@ def make_gen_stops(max_iters):
         rule = rng.choice(["basic"] * 3 + RULES)
         return gen_history(rng, rng.choice(["es", "gae"]), rng.choice(SELS), rule, rng.randint(1, 8),
                            rng.randint(2, max_iters), p_stop=rng.choice([0.3, 0.5, 0.9]))
+    return gen
+
+
+def make_gen_npint(thorough):
+    """integer rules given as NumPy integers of every width, with histories that run past the range of the
+    narrow types (int8: >= 130 tells, uint8: >= 260; int16: >= 32770, thorough tier only)"""
+    counter = [0]
+
+    def gen(rng):
+        i = counter[0]
+        counter[0] += 1
+        tname = NP_INTS[i % len(NP_INTS)]
+        kind = ("es", "gae")[(i // len(NP_INTS)) % 2]
+        very_long = thorough and tname == "int16" and i % (8 * len(NP_INTS)) == NP_INTS.index("int16")
+        bs = 1 if very_long else rng.randint(1, 4)
+        rule = rng.choice([1, 2, 3, 4, 5, 6, 7, 7, 11, 50, 127])
+        case = gen_history(rng, kind, rng.choice(SELS), rule, bs, rng.randint(2, 5), p_stop=0.1, churn=0.2)
+        case["rule_np"] = tname
+        case["dim"] = min(case["dim"], 2)
+        if very_long:
+            total = NP_WIDTH["int16"] + 2 + rng.randint(0, 2 * rule)
+        else:
+            total = (NP_WIDTH[tname] if tname in ("int8", "uint8") else 16) + 2 + rng.randint(0, 2 * rule + 10)
+        # stretch the history: the generated iterations are repeated in blocks until `total` tells are reached
+        iters = [o for o in case["ops"] if o["op"] == "iter"]
+        have = len(iters)
+        while have < total:
+            o = rng.choice(iters)
+            k = min(total - have, rng.randint(1, max(1, total // 4)))
+            o["rep"] = int(o.get("rep", 1)) + k
+            have += k
+        return case
     return gen
 
 
@@ -489,19 +542,29 @@ def run_case(case):
     # ---- construction ---------------------------------------------------
     x0 = np.full(dim, X0)
     err = None
+    rule_arg = rule
+    if case.get("rule_np") and isinstance(rule, int):
+        rule_arg = getattr(np, case["rule_np"])(rule)  # the same integer N, given as a fixed-width NumPy integer
+    gopt = case.get("gopt", "spy")
+    spy_go = gopt == "spy"
     try:
         if kind == "es":
             em = EvolutionStrategyEmitter(arch, x0=x0, sigma0=1.0, ranker=mk_rk, es=mk_es, selection_rule=sel,
-                                          restart_rule=rule, batch_size=bs, seed=1)
+                                          restart_rule=rule_arg, batch_size=bs, seed=1)
         else:
             em = GradientArborescenceEmitter(arch, x0=x0, sigma0=1.0, lr=0.5, ranker=mk_rk, es=mk_es,
-                                             grad_opt=mk_go, selection_rule=sel, restart_rule=rule,
+                                             grad_opt=mk_go if spy_go else gopt, selection_rule=sel,
+                                             restart_rule=rule_arg,
                                              normalize_grad=bool(case.get("normalize")), batch_size=bs, seed=1)
     except Exception as e:  # pylint: disable=broad-except
         err = exc_name(e)
     m = drv.ask(f"new kind={kind} sel={sel if sel else '<empty>'} rule={rule if rule != '' else '<empty>'} batch={bs}")
     valid_cfg = sel in SELS and rule in RULES
     stat("construct:" + ("accepted" if err is None else "rejected"))
+    if isinstance(rule, int) and err is None:
+        stat("integer-rule-as:" + (case.get("rule_np") or "int"))
+    if kind == "gae" and err is None:
+        stat("grad-opt:" + gopt)
     if valid_cfg and err is not None:
         return Failure("oracle", f"construct: valid configuration sel={sel!r} rule={rule!r} rejected ({err})")
     # rejection of an invalid configuration: compared as accepted / rejected only
@@ -620,137 +683,158 @@ def run_case(case):
 
         # ---- one iteration: ask, then tell with scripted feedback -----------
         st, stop, perm, vals = op["st"], bool(op["stop"]), op["perm"], op["vals"]
-        if len(arch) == 0:
-            arch.add_single(elite_sol(999, dim, dtype), 0.0, [0.5, 0.5])  # the property's hypothesis
-        rows, toks = do_ask()
-        script.update(stop=stop, perm=perm, vals=vals)
-        n0 = len(log)
-        try:
-            em.tell(*tell_args(rows, st))
-        except Exception as e:  # pylint: disable=broad-except
-            return Failure("oracle", f"{where}: well-formed tell raised {exc_name(e)}: {e}")
-        calls = log[n0:]
-        exp_itrs += 1
-        new = sum(1 for s in st if s != 0)
-        npar = expected_parents(sel, bs, st)
-        fires = rule_fires(rule, exp_itrs, st)
-        should = stop or fires
-        exp_restarts += int(should)
-        a_toks, a_sols = arch_tokens()
-        vals_arr = np.array(vals, dtype=np.float64)
-        sorted_arr = vals_arr[np.array(perm)]
-        stat("tells")
-        stat(f"restart:{'stop+rule' if stop and fires else 'stop' if stop else 'rule' if fires else 'no'}")
-        stat(f"feedback:{'none' if new == 0 else 'all' if new == bs else 'some'}")
-        if 1 in st and 2 in st:
-            stat("feedback:1-and-2-mixed")
-        if npar == 0 and new > 0:
-            stat("parents=0-but-inserted")
+        for rep_i in range(int(op.get("rep", 1))):
+            if rep_i:
+                where = f"op#{step} iter (repetition {rep_i + 1})"
+            if len(arch) == 0:
+                arch.add_single(elite_sol(999, dim, dtype), 0.0, [0.5, 0.5])  # the property's hypothesis
+            rows, toks = do_ask()
+            script.update(stop=stop, perm=perm, vals=vals)
+            n0 = len(log)
+            try:
+                em.tell(*tell_args(rows, st))
+            except Exception as e:  # pylint: disable=broad-except
+                return Failure("oracle", f"{where}: well-formed tell raised {exc_name(e)}: {e}")
+            calls = log[n0:]
+            del log[:]  # (long histories: keep the log short)
+            exp_itrs += 1
+            new = sum(1 for s in st if s != 0)
+            npar = expected_parents(sel, bs, st)
+            fires = rule_fires(rule, exp_itrs, st)
+            should = stop or fires
+            exp_restarts += int(should)
+            a_toks, a_sols = arch_tokens()
+            vals_arr = np.array(vals, dtype=np.float64)
+            sorted_arr = vals_arr[np.array(perm)]
+            stat("tells")
+            stat(f"restart:{'stop+rule' if stop and fires else 'stop' if stop else 'rule' if fires else 'no'}")
+            stat(f"feedback:{'none' if new == 0 else 'all' if new == bs else 'some'}")
+            if 1 in st and 2 in st:
+                stat("feedback:1-and-2-mixed")
+            if npar == 0 and new > 0:
+                stat("parents=0-but-inserted")
 
-        # ---- oracle: the property on the spy logs ---------------------------
-        names = [c[0] for c in calls]
-        ranks = [c for c in calls if c[0] == "rk.rank"]
-        tells = [c for c in calls if c[0] == "es.tell"]
-        stops = [c for c in calls if c[0] == "es.stop"]
-        oresets = [c for c in calls if c[0] == "es.reset"]
-        rresets = [c for c in calls if c[0] == "rk.reset"]
-        gresets = [c for c in calls if c[0] == "go.reset"]
-        if len(ranks) != 1 or len(tells) != 1:
-            return Failure("oracle", f"{where}: ranker consulted {len(ranks)}x, optimizer told {len(tells)}x")
-        rc, tc = ranks[0], tells[0]
-        if rc[1] is not em or rc[2] is not arch:
-            return Failure("oracle", f"{where}: ranker.rank received a foreign emitter / archive")
-        if not (rc[3]["solution"].shape == rows.shape and np.array_equal(rc[3]["solution"], rows)):
-            return Failure("oracle", f"{where}: ranker ranked {rc[3]['solution'].tolist()}, last ask emitted "
-                                     f"{rows.tolist()}")
-        if not np.array_equal(rc[4]["status"], np.array(st)):
-            return Failure("oracle", f"{where}: ranker saw statuses {rc[4]['status'].tolist()}, feedback was {st}")
-        if names.index("rk.rank") > names.index("es.tell"):
-            return Failure("oracle", f"{where}: optimizer told before the ranker was consulted")
-        if not (np.array_equal(tc[1], np.array(perm)) and tc[2].shape == vals_arr.shape
-                and np.array_equal(tc[2], vals_arr)):
-            return Failure("oracle", f"{where}: optimizer received ranking {tc[1].tolist()} / {tc[2].tolist()}, "
-                                     f"ranker returned {perm} / {vals}")
-        if not (isinstance(tc[3], (numbers.Real, np.number)) and tc[3] == npar):
-            return Failure("oracle", f"{where}: num_parents={tc[3]!r}, expected {npar} "
-                                     f"(selection_rule={sel}, batch={bs}, statuses={st})")
-        for sc in stops:
-            if not (sc[1].shape == sorted_arr.shape and np.array_equal(sc[1], sorted_arr)):
-                return Failure("oracle", f"{where}: check_stop saw {sc[1].tolist()}, ranked values are "
-                                         f"{sorted_arr.tolist()}")
-        restarted = bool(oresets or rresets or gresets)
-        if restarted != should:
-            return Failure("oracle", f"{where}: tell #{exp_itrs} restart_rule={rule} stop={stop} statuses={st}: "
-                                     f"{'restarted' if restarted else 'did not restart'}, must "
-                                     f"{'restart' if should else 'not restart'} (calls {names})")
-        centre = None
-        if should:
-            want = {"es.reset": 1, "rk.reset": 1, "go.reset": 1 if kind == "gae" else 0}
-            got = {"es.reset": len(oresets), "rk.reset": len(rresets), "go.reset": len(gresets)}
-            if got != want:
-                return Failure("oracle", f"{where}: restart performed {got}, expected {want}")
-            first_reset = min(i for i, nme in enumerate(names) if nme in ("es.reset", "rk.reset", "go.reset"))
-            if first_reset < names.index("es.tell"):
-                return Failure("oracle", f"{where}: reset before the optimizer was told (calls {names})")
-            if rresets[0][1] is not em or rresets[0][2] is not arch:
-                return Failure("oracle", f"{where}: ranker.reset received a foreign emitter / archive")
-            centre = (oresets if kind == "es" else gresets)[0][1]
-            if not any(c.shape == centre.shape and np.array_equal(c, centre) for c in a_sols):
-                return Failure("oracle", f"{where}: re-centred on {centre.tolist()}, not the solution of an elite "
-                                         f"currently in the archive {a_sols.tolist()}")
-            if kind == "gae" and not (oresets[0][1].shape == (NCOEF,) and not np.any(oresets[0][1])):
-                return Failure("oracle", f"{where}: coefficient distribution reset to {oresets[0][1].tolist()}, "
-                                         f"expected zeros({NCOEF})")
-        if em.itrs != exp_itrs:
-            return Failure("oracle", f"{where}: itrs={em.itrs} after {exp_itrs} tells")
-        if em.restarts != exp_restarts:
-            return Failure("oracle", f"{where}: restarts={em.restarts}, {exp_restarts} restarts were due")
-
-        # ---- correspondence with the Lean model -----------------------------
-        ctok = decode_elite(centre, dim, dtype) if centre is not None else None
-        rnd = a_toks.index(ctok) if ctok in a_toks else 0
-        # tokens of the rows the ranker saw (whole batch = the rows of the last ask, checked above)
-        mm = drv.ask(f"tell sols={nl(toks)} st={nl(st)} perm={nl(perm)} vals={','.join(val_strs(vals_arr))} "
-                     f"stop={int(stop)} arch={nl(a_toks)} rnd={rnd}")
-        head, d = parse_resp(mm)
-        if head != "ok":
-            return pending or Failure("corr", f"{where}: model rejected a tell the implementation accepted: {mm}")
-        impl_acts = []
-        for c in calls:
-            if c[0] == "rk.rank":
-                impl_acts.append(("rank", toks, [int(x) for x in c[4]["status"]]))
-            elif c[0] == "es.tell":
-                impl_acts.append(("tell", [int(x) for x in c[1]], val_strs(c[2]), int(c[3])))
-            elif c[0] == "es.stop":
-                impl_acts.append(("stop", val_strs(c[1])))
-            elif c[0] in ("es.reset", "go.reset"):
-                t = decode_elite(c[1], dim, dtype)
-                if t is not None:
-                    cen = f"e{t}"
-                elif kind == "gae" and c[0] == "es.reset" and not np.any(c[1]):
-                    cen = "zero"
+            # ---- oracle: the property on the spy logs ---------------------------
+            names = [c[0] for c in calls]
+            ranks = [c for c in calls if c[0] == "rk.rank"]
+            tells = [c for c in calls if c[0] == "es.tell"]
+            stops = [c for c in calls if c[0] == "es.stop"]
+            oresets = [c for c in calls if c[0] == "es.reset"]
+            rresets = [c for c in calls if c[0] == "rk.reset"]
+            gresets = [c for c in calls if c[0] == "go.reset"]
+            if len(ranks) != 1 or len(tells) != 1:
+                return Failure("oracle", f"{where}: ranker consulted {len(ranks)}x, optimizer told {len(tells)}x")
+            rc, tc = ranks[0], tells[0]
+            if rc[1] is not em or rc[2] is not arch:
+                return Failure("oracle", f"{where}: ranker.rank received a foreign emitter / archive")
+            if not (rc[3]["solution"].shape == rows.shape and np.array_equal(rc[3]["solution"], rows)):
+                return Failure("oracle", f"{where}: ranker ranked {rc[3]['solution'].tolist()}, last ask emitted "
+                                         f"{rows.tolist()}")
+            if not np.array_equal(rc[4]["status"], np.array(st)):
+                return Failure("oracle", f"{where}: ranker saw statuses {rc[4]['status'].tolist()}, feedback was {st}")
+            if names.index("rk.rank") > names.index("es.tell"):
+                return Failure("oracle", f"{where}: optimizer told before the ranker was consulted")
+            if not (np.array_equal(tc[1], np.array(perm)) and tc[2].shape == vals_arr.shape
+                    and np.array_equal(tc[2], vals_arr)):
+                return Failure("oracle", f"{where}: optimizer received ranking {tc[1].tolist()} / {tc[2].tolist()}, "
+                                         f"ranker returned {perm} / {vals}")
+            if not (isinstance(tc[3], (numbers.Real, np.number)) and tc[3] == npar):
+                return Failure("oracle", f"{where}: num_parents={tc[3]!r}, expected {npar} "
+                                         f"(selection_rule={sel}, batch={bs}, statuses={st})")
+            for sc in stops:
+                if not (sc[1].shape == sorted_arr.shape and np.array_equal(sc[1], sorted_arr)):
+                    return Failure("oracle", f"{where}: check_stop saw {sc[1].tolist()}, ranked values are "
+                                             f"{sorted_arr.tolist()}")
+            restarted = bool(oresets or rresets or gresets)
+            if restarted != should:
+                return Failure("oracle", f"{where}: tell #{exp_itrs} restart_rule={rule} stop={stop} statuses={st}: "
+                                         f"{'restarted' if restarted else 'did not restart'}, must "
+                                         f"{'restart' if should else 'not restart'} (calls {names})")
+            centre = None
+            if should:
+                want = {"es.reset": 1, "rk.reset": 1, "go.reset": 1 if kind == "gae" and spy_go else 0}
+                got = {"es.reset": len(oresets), "rk.reset": len(rresets), "go.reset": len(gresets)}
+                if got != want:
+                    return Failure("oracle", f"{where}: restart performed {got}, expected {want}")
+                first_reset = min(i for i, nme in enumerate(names) if nme in ("es.reset", "rk.reset", "go.reset"))
+                if first_reset < names.index("es.tell"):
+                    return Failure("oracle", f"{where}: reset before the optimizer was told (calls {names})")
+                if "go.step" in names[first_reset:]:
+                    return Failure("oracle", f"{where}: gradient step applied after the re-centring: the solution "
+                                             f"point is stepped away from the elite again (calls {names})")
+                if rresets[0][1] is not em or rresets[0][2] is not arch:
+                    return Failure("oracle", f"{where}: ranker.reset received a foreign emitter / archive")
+                if kind == "es":
+                    centre = oresets[0][1]
                 else:
-                    cen = "?" + str(c[1].tolist())
-                impl_acts.append(("oreset" if c[0] == "es.reset" else "greset", cen))
-            elif c[0] == "rk.reset":
-                impl_acts.append(("rreset",))
-            elif c[0] == "go.step":
-                pass  # C19
-            else:
-                impl_acts.append((c[0],))
-        model_acts = [a for a in parse_acts(d["acts"]) if a[0] not in ("sample", "inc")]
-        ih, it_, il = canon_acts(impl_acts)
-        mh, mt, ml = canon_acts(model_acts)
-        if fires and len(ih) == 2 and len(mh) == 3:
-            # the rule alone decides: whether check_stop is still consulted is not constrained
-            mh = mh[:2]
-        obs_impl = {"np": int(tc[3]), "restart": int(restarted), "itrs": int(em.itrs), "restarts": int(em.restarts),
-                    "handoff": ih, "restart_block": it_, "late": il}
-        obs_model = {"np": int(d["np"]), "restart": int(d["restart"]), "itrs": int(d["itrs"]),
-                     "restarts": int(d["restarts"]), "handoff": mh, "restart_block": mt, "late": ml}
-        if obs_impl != obs_model:
-            diff = {k: (obs_impl[k], obs_model[k]) for k in obs_impl if obs_impl[k] != obs_model[k]}
-            return pending or Failure("corr", f"{where}: impl/model differ on {diff}")
+                    # the emitter's solution point after the tell (public: ask_dqd())
+                    centre = np.array(em.ask_dqd()[0], copy=True)
+                    if spy_go and not (gresets[0][1].shape == centre.shape and np.array_equal(gresets[0][1], centre)):
+                        return Failure("oracle", f"{where}: gradient optimizer re-centred on {gresets[0][1].tolist()} "
+                                                 f"but after the tell the solution point ask_dqd() is "
+                                                 f"{centre.tolist()} (calls {names})")
+                if not any(c.shape == centre.shape and np.array_equal(c, centre) for c in a_sols):
+                    return Failure("oracle", f"{where}: after the restart the emitter is centred on {centre.tolist()}, "
+                                             f"not the solution of an elite currently in the archive "
+                                             f"{a_sols.tolist()} (calls {names})")
+                if kind == "gae" and not (oresets[0][1].shape == (NCOEF,) and not np.any(oresets[0][1])):
+                    return Failure("oracle", f"{where}: coefficient distribution reset to {oresets[0][1].tolist()}, "
+                                             f"expected zeros({NCOEF})")
+            if em.itrs != exp_itrs:
+                return Failure("oracle", f"{where}: itrs={em.itrs} after {exp_itrs} tells")
+            if em.restarts != exp_restarts:
+                return Failure("oracle", f"{where}: restarts={em.restarts}, {exp_restarts} restarts were due")
+
+            # ---- correspondence with the Lean model -----------------------------
+            ctok = decode_elite(centre, dim, dtype) if centre is not None else None
+            rnd = a_toks.index(ctok) if ctok in a_toks else 0
+            # tokens of the rows the ranker saw (whole batch = the rows of the last ask, checked above)
+            mm = drv.ask(f"tell sols={nl(toks)} st={nl(st)} perm={nl(perm)} vals={','.join(val_strs(vals_arr))} "
+                         f"stop={int(stop)} arch={nl(a_toks)} rnd={rnd}")
+            head, d = parse_resp(mm)
+            if head != "ok":
+                return pending or Failure("corr", f"{where}: model rejected a tell the implementation accepted: {mm}")
+            impl_acts = []
+            for c in calls:
+                if c[0] == "rk.rank":
+                    impl_acts.append(("rank", toks, [int(x) for x in c[4]["status"]]))
+                elif c[0] == "es.tell":
+                    impl_acts.append(("tell", [int(x) for x in c[1]], val_strs(c[2]), int(c[3])))
+                elif c[0] == "es.stop":
+                    impl_acts.append(("stop", val_strs(c[1])))
+                elif c[0] in ("es.reset", "go.reset"):
+                    t = decode_elite(c[1], dim, dtype)
+                    if t is not None:
+                        cen = f"e{t}"
+                    elif kind == "gae" and c[0] == "es.reset" and not np.any(c[1]):
+                        cen = "zero"
+                    else:
+                        cen = "?" + str(c[1].tolist())
+                    impl_acts.append(("oreset" if c[0] == "es.reset" else "greset", cen))
+                elif c[0] == "rk.reset":
+                    impl_acts.append(("rreset",))
+                elif c[0] == "go.step":
+                    impl_acts.append(("gstep",))
+                else:
+                    impl_acts.append((c[0],))
+            if kind == "gae" and not spy_go and restarted:
+                # a real gradient optimizer is not spied on: its re-centring is read off ask_dqd()
+                impl_acts.append(("greset", f"e{ctok}" if ctok is not None else "?" + str(centre.tolist())))
+            model_acts = [a for a in parse_acts(d["acts"]) if a[0] not in ("sample", "inc")]
+            ih, it_, il = canon_acts(impl_acts)
+            mh, mt, ml = canon_acts(model_acts)
+            if fires and len(ih) == 2 and len(mh) == 3:
+                # the rule alone decides: whether check_stop is still consulted is not constrained
+                mh = mh[:2]
+            obs_impl = {"np": int(tc[3]), "restart": int(restarted), "itrs": int(em.itrs), "restarts": int(em.restarts),
+                        "handoff": ih, "restart_block": it_, "late": il,
+                        "point": f"e{ctok}" if restarted else None}
+            obs_model = {"np": int(d["np"]), "restart": int(d["restart"]), "itrs": int(d["itrs"]),
+                         "restarts": int(d["restarts"]), "handoff": mh, "restart_block": mt, "late": ml,
+                         "point": d["point"] if restarted else None}
+            if obs_impl != obs_model:
+                diff = {k: (obs_impl[k], obs_model[k]) for k in obs_impl if obs_impl[k] != obs_model[k]}
+                return pending or Failure("corr", f"{where}: impl/model differ on {diff}")
     return pending
 
 
@@ -771,6 +855,8 @@ def run(ctx):
                 nontrivial=nontrivial, time_budget=tb(5))
     ctx.explore("stop-signals", make_gen_stops(mi), run_case, ctx.n(120, 3000),
                 nontrivial=nontrivial, time_budget=tb(4))
+    ctx.explore("numpy-int-rules", make_gen_npint(not ctx.quick), run_case, ctx.n(48, 600),
+                nontrivial=nontrivial, time_budget=tb(8))
     ctx.explore("rejections", gen_rejections, run_case, ctx.n(80, 1500),
                 nontrivial=nontrivial_rej, time_budget=tb(3))
     for k, v in sorted(STATS.items()):
